@@ -82,13 +82,31 @@ def main() -> int:
             cenv = dict(os.environ, VERIF_REPO=work, VERIF_EVIDENCE_DIR=os.path.join(work, "evidence"),
                         VERIF_REPLAY_DIR=os.path.join(work, "replay"), PYTHONHASHSEED="0")
             meta["checks"] = {}
+            base_sigs = {}
+            if rev:
+                # an older revision has defects of its own (repaired since): run every check against the UNPATCHED
+                # base as well and attribute to the seed only the signatures the patch adds
+                bwork = work + "-base"
+                os.makedirs(bwork)
+                assert subprocess.run(f"git -C /repo archive {rev} src pyproject.toml | tar -x -C {bwork}", shell=True).returncode == 0
+                benv = dict(cenv, VERIF_REPO=bwork, VERIF_EVIDENCE_DIR=os.path.join(bwork, "evidence"),
+                            VERIF_REPLAY_DIR=os.path.join(bwork, "replay"))
+                for cid in checks:
+                    _rcb, outb = sh([PY, "-m", f"checks.{cid.lower()}", "--tier", tier], str(VERIF), benv, 7200)
+                    base_sigs[cid] = {l.strip().split("  ")[0][10:] for l in outb.splitlines() if l.startswith("  signature=")}
+                shutil.rmtree(bwork, ignore_errors=True)
             for cid in checks:
                 rcc, outc = sh([PY, "-m", f"checks.{cid.lower()}", "--tier", tier], str(VERIF), cenv, 7200)
                 lines = outc.splitlines()
-                sigs = sorted({l.strip().split("  ")[0][10:] for l in lines if l.startswith("  signature=")})
-                meta["checks"][cid] = {"rc": rcc, "violations": sum(1 for l in lines if l.startswith("VIOLATION")),
+                allsigs = sorted({l.strip().split("  ")[0][10:] for l in lines if l.startswith("  signature=")})
+                sigs = [x for x in allsigs if x not in base_sigs.get(cid, set())]
+                meta["checks"][cid] = {"rc": rcc if sigs or not rev else 0,
+                                       "violations": (sum(1 for l in lines if l.startswith("VIOLATION")) if not rev else len(sigs)),
                                        "signatures": sigs[:6], "summary": (lines[-1][:200] if lines else "")}
-                meta["ran"].append(f"bin/check {cid} {tier} against the patched copy -> rc={rcc}, signatures {sigs[:3]}")
+                if rev:
+                    meta["checks"][cid]["signatures_of_the_unpatched_base"] = sorted(base_sigs.get(cid, set()))[:8]
+                meta["ran"].append(f"bin/check {cid} {tier} against the patched copy -> rc={rcc}, signatures {sigs[:3]}"
+                                   + (f" (beyond the {len(base_sigs.get(cid, set()))} signatures of the unpatched base {rev})" if rev else ""))
             meta["detected_by"] = [c for c, v in meta["checks"].items() if v["rc"] == 1 and v["violations"]]
         confirmed = meta.get("demo_unpatched_rc") == 0 and meta.get("patch_applies") and meta.get("suite_green") \
             and meta.get("demo_patched_rc", 0) != 0
